@@ -124,7 +124,8 @@ class _Ctx:
 
 # kinds no node has: an unrelated one, the tree's DEFAULT_CHILD_TYPE, and names that *contain* / *are contained in*
 # a present kind (kinds are compared as whole strings, not by substring or prefix)
-ABSENT_KINDS = ("k9", "child", "xk1y", "k")
+# ... and names that read as shell / regex patterns covering a present kind: a kind is an opaque string
+ABSENT_KINDS = ("k9", "child", "xk1y", "k", "k?", "k*", "k[12]", "k.", ".*")
 
 
 def check_tree(prop, tree, nodes, wit, *, spec=None, res: Result | None = None, tag="") -> list[Violation]:
@@ -311,6 +312,8 @@ def run(prop: str, tier: str, only=None) -> Result:
         items += [("typed3", s) for s in gen.typed_specs(3, alphabet=("a", "b", "c"), kinds=("k1", "k2", "k3"))]
     items += [("flat", s) for s in _flat_specs(flat_w, flat_kinds)]
     items += _random_specs(n_rand, max_rand)
+    # kinds that read as patterns covering each other: 'arg' / 'arg?' / 'arg*' / 'args' / '*' are five different kinds
+    items += [("patternkinds", s) for s in _flat_specs(3, ("arg", "arg?", "arg*", "args", "*"))]
     n_hist = 3 if quick else 4
     hst = [("history", s) for s in gen.history_specs(gen.typed_specs(n_hist, min_n=1))]
     big = [("big", s) for s in gen.big_specs(seed() + 15, 9 if quick else 60, lo=18, hi=36, typed=True)]
@@ -322,7 +325,7 @@ def run(prop: str, tier: str, only=None) -> Result:
     ] = (
         f"all typed forests with <= {n_typed} nodes x labelings over {{a,b}} x kinds {{k1,k2}}"
         + ("" if quick else "; all typed forests with <= 3 nodes x {a,b,c} x kinds {k1,k2,k3}")
-        + f"; one parent (tree or node) with 1..{flat_w} children, every kind pattern over {{{','.join(flat_kinds)}}}; "
+        + f"; one parent (tree or node) with 1..{flat_w} children, every kind pattern over {{{','.join(flat_kinds)}}}; the same with 1..3 children over the kinds arg / arg? / arg* / args / * (names that read as glob patterns of each other); "
         f"{n_rand} seeded random typed trees with 4..{max_rand} nodes and 3 kinds (VERIF_SEED={seed()}); every node and the system root, "
         f"{len(big)} seeded larger typed trees with 18..36 nodes; {len(hst)} " + "histories: every tree of <= {n} nodes with all accessors evaluated once, then one of remove / remove(keep_children) / move_to / add / remove_children / sort_children / deep copy (native/hist.py), the checks run on the resulting tree".format(n=n_hist) + "; "
         "every present kind + absent kinds (incl. super- and substrings of present kinds) + ANY_KIND, any_kind off/on/default, add_self off/on"
